@@ -370,6 +370,12 @@ func c09CheckDataset(c *ev.Ctx, r *ev.Rand, ds *hdf5.Dataset, dims, chunk []uint
 		var got interface{}
 		var gerr error
 		site, msg, p := ev.Guard(func() { got, gerr = ds.ReadHyperslab(sel) })
+		// the selection is the caller's, including what the library may have filled in for
+		// omitted strides and blocks: the caller reuses (overwrites) all of it after the call
+		hx.Poison(sel.Start)
+		hx.Poison(sel.Count)
+		hx.Poison(sel.Stride)
+		hx.Poison(sel.Block)
 		c.Evals(1)
 		key := func(sym string) string {
 			return fmt.Sprintf("%s:%s:%s:%s", sym, layoutTag, rankTag, feature(s))
